@@ -109,6 +109,12 @@ Definition ex_assets_child_voice : assets :=
 Example ex_voice_without_call : flow_unusable ex_assets_child_voice ex_waiting 1 /\ ~ flow_missing ex_assets_child_voice ex_waiting 1.
 Proof. split; [reflexivity|vm_compute; discriminate]. Qed.
 
+(* ... with the voice-without-call failure, not the missing-flow one *)
+Example ex_voice_without_call_code :
+  unusable_code ex_assets_child_voice ex_waiting 1 FMissingFlow = FVoiceNoCall /\
+  unusable_code ex_assets_no_child ex_waiting 1 FMissingFlow = FMissingFlow.
+Proof. split; reflexivity. Qed.
+
 Example ex_voice_without_call_fails : exists x',
   resume_session ex_assets_child_voice ex_waiting (RMsg [97]) [] = Resumed (ROk x') /\
   s_status (session_ x') = SFailed /\ map r_status (s_runs (session_ x')) = [RFailed; RFailed].
@@ -304,3 +310,40 @@ Proof.
   assert (H : exists x', resume_session ex_assets_no_child ex_waiting (RMsg [97]) [] = Resumed (ROk x')) by (vm_compute; eexists; reflexivity).
   destruct H as (x' & H). exists x'. split; [exact H|]. eapply reach_resume; [apply ex_reachable_waiting|exact H].
 Qed.
+
+
+(* ---- a reachable session waiting on a DIAL wait (a loadable store: the flow is a voice flow, the session has a call) *)
+Definition ex_voice_flow : flow := {| f_id := 1; f_type := 2; f_nodes := map (fun n => {| n_id := n_id n; n_actions := n_actions n; n_router := n_router n; n_exits := n_exits n |}) (f_nodes ex_flow2_dial) |}.
+Definition ex_voice_assets : assets := {| a_flows := [ex_voice_flow]; a_opts := ex_opts |}.
+Definition ex_voice_started : result_ := Eval vm_compute in start ex_voice_assets TManual 1.
+Definition ex_voice_waiting : session := match ex_voice_started with ROk x => session_ x | _ => new_session TManual 1 end.
+
+Example ex_reachable_dial_waiting :
+  reachable ex_voice_waiting /\ s_status ex_voice_waiting = SWaiting /\ s_type ex_voice_waiting = 2 /\
+  map r_status (s_runs ex_voice_waiting) = [RWaiting] /\ count_waits ex_voice_waiting = 1%nat /\
+  (exists sr, map (fun e => ev_kind e) (flat_map r_events (s_runs ex_voice_waiting)) = [EDialWait] /\ sr = tt).
+Proof.
+  split.
+  - change ex_voice_waiting with (session_ (match ex_voice_started with ROk x => x | _ => {| session_ := new_session TManual 1; sprint_ := empty_sprint |} end)).
+    eapply reach_start with (a := ex_voice_assets) (t := TManual) (f := 1). vm_compute. reflexivity.
+  - vm_compute. repeat split. exists tt. split; reflexivity.
+Qed.
+
+(* the accept table's dial row on that session: msg and wait_timeout are rejected, dial goes through *)
+Example ex_dial_row_voice :
+  resume_session ex_voice_assets ex_voice_waiting (RMsg [97]) [] = Rejected 103 /\
+  resume_session ex_voice_assets ex_voice_waiting RTimeout [] = Rejected 103 /\
+  exists x', resume_session ex_voice_assets ex_voice_waiting RDial [] = Resumed (ROk x') /\ s_status (session_ x') = SCompleted.
+Proof. vm_compute. repeat split. eexists; split; reflexivity. Qed.
+
+(* ---- a reachable session whose stored result was actually CUT: value to MaxResultChars = 1, kept input to
+   MaxTemplateChars = 2 (c05_stored_result_values / c05_stored_result_inputs are not vacuous) *)
+Definition ex_cut_assets : assets :=
+  {| a_flows := [ex_flow1; ex_flow2]; a_opts := {| max_steps := 100; max_resumes := 500; max_template_chars := 2; max_result_chars := 1 |} |}.
+Definition ex_cut_resumed : resume_result := Eval vm_compute in resume_session ex_cut_assets ex_waiting (RMsg [97; 98; 99; 100]) [].
+
+Example ex_result_cut : exists x', ex_cut_resumed = Resumed (ROk x') /\
+  s_input (session_ x') = Some [97; 98; 99; 100] /\
+  exists r res, nth_error (s_runs (session_ x')) 1 = Some r /\ In res (r_results r) /\
+                res_value res = [97] /\ res_input res = [97; 98].
+Proof. vm_compute. eexists; split; [reflexivity|]. split; [reflexivity|]. eexists; eexists. split; [reflexivity|]. split; [left; reflexivity|]. split; reflexivity. Qed.
